@@ -211,3 +211,43 @@ Proof.
   subst sent. unfold responder. cbn [is_low andb].
   rewrite (dh_pair_injective a Bt B H1 H2). rewrite andb_false_r. cbn. reflexivity.
 Qed.
+
+(* ---- a peer that stops sending ---- *)
+Lemma negative_ack_rejected_any chk B b X F ack : ack <> Some true -> fst (responder chk B b X F ack) = None.
+Proof.
+  intros H. unfold responder. destruct (chk && is_low X); [reflexivity|].
+  destruct F as [k1 k2 n A kt signer msg|]; [|reflexivity].
+  destruct (negb _); [reflexivity|]. destruct (negb _); [reflexivity|]. destruct kt; [|reflexivity].
+  destruct ack as [[|]|]; try reflexivity. congruence.
+Qed.
+
+Lemma stalling_responder_fails chk A a B b sends : sends < 2 -> requester_vs_stalling chk A a B b sends = false.
+Proof.
+  intros H. unfold requester_vs_stalling.
+  destruct (N.eqb_spec sends 0) as [_|H0]; [reflexivity|].
+  destruct (N.eqb_spec sends 1) as [_|H1]; [|exfalso; lia].
+  unfold requester. destruct (chk && is_low (Pt b)); reflexivity.
+Qed.
+
+Lemma stalling_requester_fails chk A a B b sends : sends < 3 -> responder_vs_stalling chk A a B b sends = None.
+Proof.
+  intros H. unfold responder_vs_stalling.
+  destruct (N.eqb_spec sends 0) as [_|H0]; [reflexivity|].
+  destruct (snd (requester chk A a B (Pt b) AccJunk)) as [auth|]; [|reflexivity].
+  destruct (N.eqb_spec sends 1) as [_|H1].
+  - unfold responder. destruct (chk && is_low (Pt a)); reflexivity.
+  - destruct (N.eqb_spec sends 2) as [_|H2]; [|exfalso; lia].
+    apply negative_ack_rejected_any. discriminate.
+Qed.
+
+Lemma stalling_complete_run A a B b :
+  requester_vs_stalling true A a B b 2 = true /\ responder_vs_stalling true A a B b 3 = Some A.
+Proof.
+  unfold requester_vs_stalling, responder_vs_stalling. cbn [N.eqb Pos.eqb].
+  rewrite honest_completes. split; [reflexivity|].
+  pose proof (honest_completes A a B b) as H. unfold honest_run in H.
+  destruct (snd (requester true A a B (Pt b) AccJunk)) as [auth|] eqn:E; [|discriminate].
+  destruct (responder true B b (Pt a) auth (Some true)) as [r [acc|]] eqn:E2; [|discriminate].
+  cbv zeta in H. destruct (fst (requester true A a B (Pt b) acc)); [|discriminate].
+  rewrite E2 in H. cbn [fst] in H. cbn [fst]. congruence.
+Qed.
